@@ -31,6 +31,19 @@ pub fn valid_for(f: MemFn, src: &Src) -> bool {
 
 pub fn run(ctx: &Ctx, ev: &mut Ev) {
     let mut drv = Driver::new();
+    if ctx.mode == Mode::Miri {
+        // dedicated small workload for the UB interpreter
+        let mut r = ctx.rng(155);
+        for i in 0..(if ctx.thorough() { 500 } else { 40 }) {
+            let f = ALL_MEM[(i + ctx.shard * 3) % ALL_MEM.len()];
+            let src = gen_src(&mut r, f.src_kind(), 2);
+            let src = Src { bytes: src.bytes[..src.bytes.len().min(70)].to_vec(), units: src.units[..src.units.len().min(70)].to_vec() };
+            let src = if matches!(f.src_kind(), SrcKind::Str | SrcKind::Latin1Str) { let mut b = src.bytes.clone(); while std::str::from_utf8(&b).is_err() { b.pop(); } Src { bytes: b, units: vec![] } } else { src };
+            let dl = gen_dst_len(&mut r, f, src.len(f));
+            check(&mut drv, ev, f, &src, dl, [0u8, 0xFF, 0xA5][r.below(3)], r.below(16), r.below(16), r.below(16), false);
+        }
+        return;
+    }
     let th = ctx.thorough();
     let tiny = ctx.mode == Mode::Miri || ctx.mode == Mode::Vg;
     let fills = [0x00u8, 0xFF, 0xA5];
